@@ -55,6 +55,15 @@ static const struct spec_s specs[] = {
 	{"xyz:K", C_MAPKEY, 3},
 	{"abcdefgh:FRA", C_MAPKEY, 8},
 	{"ab:ZZZ", C_ABSENTKEY, 2},
+	/* absent keys that spell something zif_open() would accept on its own */
+	{"ab:GMT", C_ABSENTKEY, 2},
+	{"a:CET", C_ABSENTKEY, 1},
+	{"abcdefgh:Japan", C_ABSENTKEY, 8},
+	{"xyz:Europe/Paris", C_ABSENTKEY, 3},
+	{"ab:UTC", C_ABSENTKEY, 2},
+	{"a:TAI", C_ABSENTKEY, 1},
+	{"ab:+05:30", C_ABSENTKEY, 2},
+	{"xyz:-0800", C_ABSENTKEY, 3},
 	{"abcd:K", C_ABSENTMAP, 4},
 	{"Europe/Berlin", C_NAME, 0},
 	{"+05:30", C_OFFSET, 0},
@@ -72,6 +81,7 @@ struct out_s {
 	char *out;
 	size_t len;
 	int ended, status;
+	int asan;		/* stderr carried an AddressSanitizer report */
 };
 
 static void
@@ -94,6 +104,7 @@ run_fn(int (*fn)(int, char**), const char *const *argv, int argc, const char *in
 	o->len = r.outlen;
 	o->ended = r.timed_out ? 1 : r.signaled ? 2 : 0;
 	o->status = r.signaled ? r.sig : r.status;
+	o->asan = r.err != NULL && strstr(r.err, "AddressSanitizer") != NULL;
 	free(r.err);
 }
 
@@ -227,6 +238,84 @@ singles(void)
 	}
 }
 
+/* absolute part of the oracle: a spec whose key or map is absent is unresolved, whatever the key spells */
+static void
+judge_absent(void)
+{
+	for (int i = 0; i < NSPEC; i++) {
+		char exp[128], key[200], cas[32], a[200];
+		EX_CTR(c_trans, "transitions");
+		if (resolvable(i)) {
+			continue;
+		}
+		++*c_trans;
+		snprintf(exp, sizeof(exp), "%s unresolved\n", specs[i].spec);
+		if (lsingle[i].ended || lsingle[i].asan || strcmp(lsingle[i].out, exp)) {
+			const char *k = strchr(specs[i].spec, ':') + 1;
+			snprintf(key, sizeof(key), "zonespecs dt_io_zone %s-resolves key-spells=%s", specs[i].cls == C_ABSENTKEY ? "absent-key" : "absent-map",
+				 *k == '+' || *k == '-' ? "offset" : !strcmp(k, "UTC") || !strcmp(k, "TAI") || !strcmp(k, "GPS") ? "virtual-zone" : !strcmp(k, "ZZZ") || !strcmp(k, "K") ? "nothing" : "zone-name");
+			snprintf(cas, sizeof(cas), "A %d", i);
+			printable(lsingle[i].out, lsingle[i].len, a, sizeof(a));
+			ex_viol(key, i, cas, NULL, "dt_io_zone('%s') alone in a fresh process gives '%s'; the key is not in the map, so the spec names no zone", specs[i].spec, a);
+			if (g_replay) {
+				printf("  FAIL [%s] %s -> '%s'\n", key, specs[i].spec, a);
+			}
+		} else if (g_replay) {
+			printf("  ok %s is unresolved\n", specs[i].spec);
+		}
+	}
+}
+
+/* a short spec and a zone path of exactly L bytes cached in one process, in both orders (the list of opened zones grows) */
+#define LONG_MIN	60
+#define LONG_MAX	300
+static int
+judge_long(int L, int order)
+{
+	static const char zdir[] = "/usr/share/zoneinfo", zname[] = "/Europe/Berlin";
+	char path[512], exp[1200], key[200], cas[32], a[300];
+	const char *av[4];
+	struct out_s o;
+	size_t n;
+	int bad = 0;
+	EX_CTR(c_trans, "transitions");
+	EX_CTR(c_long, "long_zone_name_runs");
+	EX_CTR(c_nontriv, "nontrivial");
+
+	n = (size_t)snprintf(path, sizeof(path), "%s", zdir);
+	while (n + 2 + sizeof(zname) - 1 <= (size_t)L) {
+		path[n++] = '/';
+		path[n++] = '.';
+	}
+	if (n + sizeof(zname) - 1 < (size_t)L) {
+		path[n++] = '/';
+	}
+	snprintf(path + n, sizeof(path) - n, "%s", zname);
+	av[0] = "resolve";
+	av[1] = order ? path : "Europe/Paris";
+	av[2] = order ? "Europe/Paris" : path;
+	run_fn(resolve_main, av, 3, NULL, 0, &o);
+	++*c_trans;
+	++*c_long;
+	++*c_nontriv;
+	snprintf(exp, sizeof(exp), "%s 7200\n%s 7200\n", av[1], av[2]);
+	snprintf(cas, sizeof(cas), "G %d %d", L, order);
+	ex_outcome(ex_hash_mix(ex_hash(o.out, o.len), (uint64_t)L));
+	if (o.ended || o.asan || strcmp(o.out, exp)) {
+		snprintf(key, sizeof(key), "zonespecs dt_io_zone long-zone-name %s order=%s", o.asan ? "asan-report" : o.ended ? "abnormal-end" : "wrong-output",
+			 order ? "long-then-short" : "short-then-long");
+		printable(o.out, o.len > 60 ? 60 : o.len, a, sizeof(a));
+		ex_viol(key, L, cas, NULL, "dt_io_zone() on %s in one process (path of %d bytes): %s%s, output starts '%s'", order ? "<path> Europe/Paris" : "Europe/Paris <path>", L,
+			o.asan ? "AddressSanitizer reports, " : "", o.ended ? "abnormal end" : "exit", a);
+		bad = 1;
+	}
+	if (g_replay) {
+		printf("  %s path of %d bytes, %s\n", bad ? "FAIL" : "ok", L, order ? "long then short" : "short then long");
+	}
+	free(o.out);
+	return bad;
+}
+
 static int
 do_seq(const int *seq, int n)
 {
@@ -358,7 +447,15 @@ main(int argc, char *argv[])
 		{
 			char lv;
 			int n, seq[3];
-			if (sscanf(ex.cas, "%c %d %d %d %d", &lv, &n, seq, seq + 1, seq + 2) == 5 && n >= 2 && n <= 3 && seq[0] >= 0 && seq[0] < NSPEC && seq[1] >= 0 &&
+			int L, ord;
+			if (sscanf(ex.cas, "G %d %d", &L, &ord) == 2 && L >= 40 && L <= 400) {
+				bad = judge_long(L, ord);
+			} else if (ex.cas[0] == 'A') {
+				int n0 = ex.nviol;
+				singles();
+				judge_absent();
+				bad = ex.nviol > n0;
+			} else if (sscanf(ex.cas, "%c %d %d %d %d", &lv, &n, seq, seq + 1, seq + 2) == 5 && n >= 2 && n <= 3 && seq[0] >= 0 && seq[0] < NSPEC && seq[1] >= 0 &&
 			    seq[1] < NSPEC && seq[2] < NSPEC) {
 				singles();
 				bad = do_seq(seq, n);
@@ -382,7 +479,9 @@ main(int argc, char *argv[])
 	ex_meta("rule", "zone specs have no memory: TZMAP_DIR with the maps a, ab, abcdefgh, xyz (compiled by the tree's tzmap cc; key K goes to a different zone in each) and a "
 		"%d-spec alphabet (MAP:K over the four maps, MAP:FRA, MAP:absent-key, absent-map:K, a zone name, an offset, a file path). "
 #if defined C19_SPECS_dzone
-		"(L) dt_io_zone() in a forked child on ALL ordered pairs (thorough: triples) of specs in one process: the offset each resolves to (or unresolved) = the single-spec "
+		"Absent keys include ones spelt like zone names, virtual zones and offsets (GMT CET Japan Europe/Paris UTC TAI +05:30 -0800): alone they must be unresolved. "
+		"A short zone name and a zone path of EVERY length 60..300 bytes are resolved in one process in both orders (the list of opened zones grows): no AddressSanitizer report, "
+		"both resolve. (L) dt_io_zone() in a forked child on ALL ordered pairs (thorough: triples) of specs in one process: the offset each resolves to (or unresolved) = the single-spec "
 		"run in a fresh process; (M) dzone S1 S2 [S3] DATE over the resolvable specs = the single-spec runs (a spec that does not resolve changes what dzone falls back to and is "
 		"left to (L)). "
 #else
@@ -398,6 +497,16 @@ main(int argc, char *argv[])
 		);
 
 #if defined C19_SPECS_dzone
+	if (ex.worker == 0) {
+		singles();
+		judge_absent();
+	}
+	for (int L = LONG_MIN; L <= LONG_MAX && !ex_expired(); L++) {
+		if (ex_mine((uint64_t)(100000 + L))) {
+			judge_long(L, 0);
+			judge_long(L, 1);
+		}
+	}
 	{
 		int have = 0;
 		for (int a = 0; a < NSPEC && !ex_expired(); a++) {
